@@ -41,6 +41,7 @@ pub fn ev_kind(ev: &Ev) -> String {
         Ev::Frame(..) => "frame-literal".into(),
         Ev::Raw(_, h, _) | Ev::RawAt(_, h, _) => format!("frame-{}", frame_kind(h)),
         Ev::ClockNow(_) => "clock".into(),
+        Ev::Macro(_) => "macro".into(),
     }
 }
 
